@@ -744,9 +744,10 @@ pub fn seq_case(cfg: SeqGenCfg) -> BoxedStrategy<SeqCase> {
                 explicit_content(cap, max_d, 5_000)
             };
             let how = prop_oneof![
-                Just(How::New),
-                Just(How::FromVec),
-                Just(How::Collect),
+                3 => Just(How::New),
+                3 => Just(How::FromVec),
+                3 => Just(How::Collect),
+                2 => any::<u8>().prop_map(How::CollectLoose),
             ];
             (Just(kind), Just(ty), how, content, any::<u64>(), any::<u64>())
         })
